@@ -34,7 +34,7 @@ fn frame_bytes(f: &Fr) -> Vec<u8> {
     b
 }
 
-async fn read_side<S: Socket>(kind: Kind, mut c: Connection<S>, frames: &[Fr]) -> Result<u64, (String, String)> {
+async fn read_side<S: Socket>(kind: Kind, mut c: Connection<S>, frames: &[Fr], reset_expected: bool) -> Result<u64, (String, String)> {
     let n = frames.len();
     for (j, f) in frames.iter().enumerate() {
         let r = match with_deadline(kind, Duration::from_secs(60), c.receive_call::<Msg<'_>>()).await {
@@ -62,6 +62,8 @@ async fn read_side<S: Socket>(kind: Kind, mut c: Connection<S>, frames: &[Fr]) -
     }
     match with_deadline(kind, Duration::from_secs(60), c.receive_call::<Msg<'_>>()).await {
         Some(Err(zlink_core::Error::UnexpectedEof)) => Ok(n as u64 + 1),
+        // the peer hung up with something of ours unread: the kernel reports a reset - after every frame it had sent
+        Some(Err(_)) if reset_expected => Ok(n as u64 + 1),
         // a reset instead of an orderly end can only happen if the reader left something unread; it did not
         Some(Err(e)) => Err(("C01/real-sockets:no-end-of-stream-after-the-last-frame".into(), format!("receive #{n} (after the last frame): {e:?}"))),
         Some(Ok(call)) => Err(("C01/real-sockets:message-fabricated-after-the-last-frame".into(), format!("{:?}", call.method()))),
@@ -103,14 +105,20 @@ fn one_case(kind: Kind, seed: u64, rep: &mut Report) {
         frames.push(Fr::Good(0, 5));
     }
     let half_close = rng.chance(1, 3);
+    // the peer hangs up while a message of ours lies unread in its socket: the kernel then reports a connection reset
+    // to us instead of an orderly end - but only after everything the peer had sent has been delivered
+    let unread = !half_close && rng.chance(1, 3);
     // the reader is parked on the empty socket when the peer writes everything and hangs up in one go
     let parked = !after_close && rng.chance(1, 2);
     let pieces = rng.below(4);
-    let desc = format!("peer closes {} seed={} frames={} bytes={} reader_starts_after_close={} reader_parked_when_the_peer_writes_and_hangs_up={} shutdown_only={} pieces={}", kind.name(), seed, frames.len(), total, after_close, parked, half_close, pieces);
+    let desc = format!("peer closes {} seed={} frames={} bytes={} reader_starts_after_close={} reader_parked_when_the_peer_writes_and_hangs_up={} shutdown_only={} pieces={} peer_leaves_a_message_of_ours_unread={unread}", kind.name(), seed, frames.len(), total, after_close, parked, half_close, pieces);
     rep.eval(vnet::fnv(desc.as_bytes()));
     rep.count(&format!("real_socket_cases.{}", kind.name()));
     if after_close {
         rep.count("real_socket_cases_reader_starts_after_the_peer_closed");
+    }
+    if unread {
+        rep.count("real_socket_cases_peer_hangs_up_with_a_message_of_ours_unread");
     }
     let replay = json!({"monitor": "c01", "case": desc});
     let stream: Vec<u8> = frames.iter().flat_map(frame_bytes).collect();
@@ -124,6 +132,9 @@ fn one_case(kind: Kind, seed: u64, rep: &mut Report) {
         let inc = |e: std::io::Error| ("inconclusive".to_string(), e.to_string());
         let (sa, sb) = UnixStream::pair().map_err(inc)?;
         sa.set_nonblocking(true).map_err(inc)?;
+        if unread {
+            (&sa).write_all(b"{\"method\":\"x.NeverRead\",\"oneway\":true}\0").map_err(inc)?;
+        }
         let chunks = vnet::chunks_at(&stream, &cuts);
         let writer = std::thread::spawn(move || -> std::io::Result<Option<UnixStream>> {
             let mut sb = sb;
@@ -152,11 +163,11 @@ fn one_case(kind: Kind, seed: u64, rep: &mut Report) {
         let r = match kind {
             Kind::Smol => {
                 let a = smol::Async::new(sa).map_err(inc)?;
-                read_side(kind, Connection::new(zlink_smol::unix::Stream::from(a)), &frames).await
+                read_side(kind, Connection::new(zlink_smol::unix::Stream::from(a)), &frames, unread).await
             }
             _ => {
                 let a = tokio::net::UnixStream::from_std(sa).map_err(inc)?;
-                read_side(kind, Connection::new(zlink_tokio::unix::Stream::from(a)), &frames).await
+                read_side(kind, Connection::new(zlink_tokio::unix::Stream::from(a)), &frames, unread).await
             }
         };
         if let Some(w) = writer {
